@@ -230,6 +230,10 @@ func confAlphabet() []confOp {
 			}
 			ks := []string{}
 			for _, k := range r.Keys {
+				// the real side runs under a per-sequence namespace; show the key below it
+				if i := strings.Index(string(k), "x/"); i >= 0 {
+					k = k[i:]
+				}
 				ks = append(ks, string(k))
 			}
 			sort.Strings(ks)
